@@ -180,14 +180,15 @@ def run(tier, seed, t0, only=None):
     rnd = random.Random(seed)
     insts = []
     nb = 25 if tier == 'quick' else 400
-    for d in ('g44', 'g333', 's', 'n', 'm', 'g88', 'b3'):
+    for d in ('g44', 'g333', 's', 'n', 'm', 'g88', 'b3', 'p'):
         insts += [c09.instance('boxes', d, seed * 1000 + i) for i in range(nb)]
-    for d in ('g333', 's', 'n', 'm'):
+    for d in ('g333', 's', 'n', 'm', 'p'):
         insts += [c09.instance('partial', d, seed * 1000 + i) for i in range(nb)]
-    for d in ('g44', 's', 'n'):
+    for d in ('g44', 's', 'n', 'p'):
+        nbits = 32 if d == 'p' else 16
         for _ in range(nb):
-            m = rnd.getrandbits(16) or 1
-            insts.append(c09.instance('mask', d, (m, (m | rnd.getrandbits(16)) if rnd.random() < 0.6 else None)))
+            m = rnd.getrandbits(nbits) or 1
+            insts.append(c09.instance('mask', d, (m, (m | rnd.getrandbits(nbits)) if rnd.random() < 0.6 else None)))
     size = 10 if tier == 'quick' else 60
     tasks = []
     for i in range(0, len(insts), size):
